@@ -281,7 +281,7 @@ def parse_trace(text):
         if p[0] in ("END", "DEADLOCK", "STEPLIMIT", "REPLAY-DIVERGED", "REPLAY-EXHAUSTED"):
             fin = l
             continue
-        if len(p) < 4:
+        if len(p) < 4 or not p[0].isdigit() or int(p[0]) >= len(p[3]):
             fin = "GARBLED " + l
             continue
         tid, h, t, pend = p[0], p[1], p[2], p[3]
@@ -298,7 +298,7 @@ def parse_trace(text):
     return order, evs, fin, sched, seminit
 
 
-def run_shim(shim, args, seed, mode, tmp, replay=None, timeout=120):
+def run_shim(shim, args, seed, mode, tmp, replay=None, timeout=60):
     tr = os.path.join(tmp, "trace.%d" % os.getpid())
     env = dict(os.environ, C18_TRACE=tr, C18_SEED=str(seed), C18_MODE=str(mode))
     if replay is not None:
@@ -369,6 +369,13 @@ def run(chk, replay_spec=None):
 
     tmp = tempfile.mkdtemp(prefix="verif-c18.", dir=build.scratch_root())
     try:
+        # private copies: the build cache is pruned by concurrent checks of other trees
+        def private(b, name):
+            if b is None:
+                return None
+            shutil.copy2(b, os.path.join(tmp, name))
+            return os.path.join(tmp, name)
+        yara, yarac, shim, model = private(yara, "yara"), private(yarac, "yarac"), private(shim, "yara_shim"), private(model, "qmodel")
         _run_all(chk, quick, tmp, yara, yarac, shim, model, slots, info, replay_spec)
     finally:
         shutil.rmtree(tmp, ignore_errors=True)
@@ -443,20 +450,23 @@ def _run_all(chk, quick, tmp, yara, yarac, shim, model, slots, info, replay_spec
                                "end": fin, "schedule": " ".join(sched) if len(sched) < 60000 else "(too long; rerun with seed/mode)"})
             distinct.add(("shim", n, mode, tuple(opts)))
             if rc == "timeout" or not fin.startswith("END"):
-                what = "hangs" if rc == "timeout" else fin.split(" ")[0]
+                what = "hangs" if rc == "timeout" else ("crashes (exit status %r, stderr %r)" % (rc, err[-160:]) if not fin.startswith("DEADLOCK")
+                                                        else "DEADLOCK, no thread can take a step")
                 chk.violation("shim-deadlock" if fin.startswith("DEADLOCK") else "shim-abnormal",
                               "real cli/yara.c under the scheduler shim, %d threads, %d files, schedule seed %d mode %d: %s "
-                              "(pending operations per thread: %s)" % (n, nfiles, seed, mode, what, fin[:120]), rep)
+                              "(last trace line: %s)" % (n, nfiles, seed, mode, what, fin[:120]), rep)
             else:
                 # the run itself: each file handed over exactly once, output = per-file runs
                 put, got = taken_items(evs)
-                if sorted(got, key=str) != sorted(put, key=str) or len(put) != nfiles or "?" in got:
+                if model and (sorted(got, key=str) != sorted(put, key=str) or len(put) != nfiles or "?" in got):
+                    # the items are inferred from where queue_head/queue_tail change inside the critical section; the
+                    # property itself is judged on the output below
                     lost = [x for x in put if x not in got]
                     dup = sorted(set(x for x in got if got.count(x) > 1))
-                    chk.violation("shim-each-once", "real cli/yara.c under the scheduler shim (%d threads, seed %d mode %d): "
-                                  "%d files put, %d handed to scanning threads; lost %s duplicated %s"
+                    chk.violation("shim-items", "real cli/yara.c under the scheduler shim (%d threads, seed %d mode %d): "
+                                  "%d files stored in the ring, %d taken out of it inside critical sections; not taken %s, taken twice %s"
                                   % (n, seed, mode, len(put), len(got), [order[int(i)] for i in lost[:3]],
-                                     [order[int(i)] for i in dup[:3] if i != "?"]), rep)
+                                     [order[int(i)] for i in dup[:3] if i != "?"]), rep, found_input=False)
                 cm = "-c" in opts
                 want, _ = base.get(opts, cm)
                 probs = compare_dir_run(out, want, root, files, cm)
@@ -504,18 +514,24 @@ def _run_all(chk, quick, tmp, yara, yarac, shim, model, slots, info, replay_spec
         plan = [(n, o, name) for (o, name) in optsets for n in tcounts]
         reps = 3
     bb = 0
+    hung = set()
+    HANG_S = 25 if quick else 120
     for n, o, name in plan:
         cm = "-c" in o
         want, errs = base.get(["-w"] + o, cm)
         for r in range(reps):
+            if n in hung:
+                continue
             args = ["-p", str(n), "-r", "-w"] + o + rules_src + [root]
-            rc, out, err = sh([yara] + args, timeout=120)
+            rc, out, err = sh([yara] + args, timeout=HANG_S)
             evals += 1
             bb += 1
             distinct.add(("bb", n, name))
             rep = tree_replay({"kind": "blackbox", "args": args[:-1] + ["<tree>"], "threads": n, "repeat": 5})
             if rc == "timeout":
-                chk.violation("hang", "yara -p %d %s over a tree of %d files does not terminate (120 s)" % (n, " ".join(o), nfiles), rep)
+                hung.add(n)
+                chk.violation("hang", "yara -p %d %s over a tree of %d files does not terminate (%d s; a clean run takes < 1 s)"
+                              % (n, " ".join(o), nfiles, HANG_S), rep)
                 continue
             probs = compare_dir_run(out, want, root, files, cm)
             if probs:
@@ -534,7 +550,9 @@ def _run_all(chk, quick, tmp, yara, yarac, shim, model, slots, info, replay_spec
         rc, out, err = sh([yara, "-s", rc_path, p], timeout=60)
         wantl += out.split("\n")[:-1]
     for n in (4, 32):
-        rc, out, err = sh([yara, "-p", str(n), "-r", "-s", rc_path, root], timeout=120)
+        if n in hung:
+            continue
+        rc, out, err = sh([yara, "-p", str(n), "-r", "-s", rc_path, root], timeout=HANG_S)
         evals += 1
         if sorted(out.split("\n")[:-1]) != sorted(wantl):
             chk.violation("output:console", "yara -p %d -s with console.log: the multiset of lines differs from the single-file runs"
@@ -547,7 +565,9 @@ def _run_all(chk, quick, tmp, yara, yarac, shim, model, slots, info, replay_spec
         counts, first = [], None
         for n in (1, 4, 32):
             for r in range(2 if quick else 6):
-                rc, out, err = sh([yara, "-p", str(n), "-r", "-w", "-l", str(lim)] + rules_src + [root], timeout=120)
+                if n in hung:
+                    continue
+                rc, out, err = sh([yara, "-p", str(n), "-r", "-w", "-l", str(lim)] + rules_src + [root], timeout=HANG_S)
                 evals += 1
                 counts.append((n, len(out.split("\n")) - 1))
                 probs = compare_dir_run(out, want, root, files, False)
@@ -579,7 +599,9 @@ def _run_all(chk, quick, tmp, yara, yarac, shim, model, slots, info, replay_spec
             want, _ = base.get(["-w"] + o, cm)
             for n in ((1, 7) if quick else (1, 4, 32)):
                 for fname, fargs in forms[1:]:
-                    rc, out, err = sh([yara, "-p", str(n), "-r", "-w"] + o + fargs + [root], timeout=120)
+                    if n in hung:
+                        continue
+                    rc, out, err = sh([yara, "-p", str(n), "-r", "-w"] + o + fargs + [root], timeout=HANG_S)
                     evals += 1
                     distinct.add(("form", fname, name, n))
                     probs = compare_dir_run(out, want, root, files, cm) if rc != "timeout" else [("hang", "does not terminate")]
@@ -623,7 +645,7 @@ def _run_all(chk, quick, tmp, yara, yarac, shim, model, slots, info, replay_spec
         ("scan list naming a missing file, 1 thread", [yara, "-w", "-p", "1", "--scan-list"] + rules_src + [lst], True),
     ]
     for name, cmd, want_err in cases:
-        rc, out, err = sh(cmd, timeout=120)
+        rc, out, err = sh(cmd, timeout=HANG_S)
         evals += 1
         distinct.add(("exit", name))
         reported = bool(re.search(r"error|maximum number of threads|wrong number|could not|invalid", err))
